@@ -61,8 +61,8 @@ NOT_REACHED = ["plot_voronoi / summarize_spatial_statistics (take no HVSR object
                "_plot_resonance_pdf (private, not called by any public function)", "rendered pixels (only artists and their data)",
                "a mean-fn line (this version draws only the +-1 sigma band)", "contourf_kwargs other than levels/cmap",
                "find_peaks_kwargs other than None/{}", "more than 5 azimuths, more than 20 windows"]
-BUDGET = {"quick": dict(cases=64, seconds=60, shards=4),
-          "thorough": dict(cases=2400, seconds=600, shards=16)}
+BUDGET = {"quick": dict(cases=160, seconds=60, shards=4),
+          "thorough": dict(cases=4800, seconds=600, shards=16)}
 REQUIRED = ["mon:object-unchanged", "mon:recordings-unchanged", "mon:arguments-and-defaults-unchanged",
             "mon:accepted-lines-are-accepted-curves", "mon:rejected-lines-are-rejected-curves",
             "mon:mean-and-std-lines-are-the-statistics", "mon:mean-curve-peak-marker", "mon:window-peak-markers",
@@ -1031,6 +1031,9 @@ def battery(ctx, rng, obj, kind, steps, recs=None, force=None):
     """Call functions at the current state; returns the number of calls made."""
     info = state_info(obj, kind, steps)
     defined = well_defined(obj, kind)
+    if any(np.any(np.asarray(h.valid_window_boolean_mask, bool) & ~np.asarray(h.valid_peak_boolean_mask, bool))
+           for h in hvsrs_of(obj, kind)):
+        ctx.count("states_with_accepted_windows_without_peak")
     if not defined:
         ctx.count("states_with_an_undefined_statistic")
         if rng.random() > 0.35 and force is None:
@@ -1165,9 +1168,10 @@ def fam_no_peak_windows(ctx, rng):
         obj.update_peaks_bounded(search_range_in_hz=(lo, hi))
         steps = [["range", [lo, hi]]]
         recs = make_recordings(rng, obj.n_curves)
-        if rng.random() < 0.4:
+        if rng.random() < 0.6:      # accepted windows without a peak: window mask and peak mask differ
             steps = steps + [histories.step_time_domain(rng, obj, obj.n_curves)]
-        battery(ctx, rng, obj, "traditional", steps, recs=recs, force=["prepost", str(rng.choice(["single", "3c"])), "table"])
+        battery(ctx, rng, obj, "traditional", steps, recs=recs,
+                force=["prepost", "single"] + (["3c"] if rng.random() < 0.5 else []) + ["table"])
     finally:
         close_figures()
 
